@@ -313,34 +313,15 @@ Proof.
 Qed.
 
 (* ---------------------------------------------------------------- decomperss *)
-Definition decomp_body : Prop :=
-  forall data fuel s out w c u,
-    Forall (fun x => x < 256) data ->
-    reach data c -> st_sim s c (bits_of_bytes u) ->
-    win_rel out w (cfg_st c) -> w <= outLen ->
-    let '(s', out', w', err) := decomp_loop fuel s out w in
-    let '(s2, out2, w2) := flush_ov s' out' w' in
-    exists c',
-      reach data c' /\ win_rel out2 w2 (cfg_st c') /\ w <= w2 /\ w2 <= outLen + 261 /\
-      (exists v, rout (cfg_st c') = v ++ rout (cfg_st c) /\ N.of_nat (length v) = w2 - w) /\
-      inputNil s2 = inputNil s /\
-      (err <> EPanic -> err <> EFuel -> isError err = false ->
-         st_sim s2 c' (bits_of_bytes u) /\
-         qbytes s2 <= qbytes s /\
-         (err = ENone \/ err = EEndInput \/ err = EOutputOverflow) /\
-         (err = ENone -> phase s2 = phaseStreamEnd) /\
-         (phase s2 = phaseDecodingHeader ->
-            err = EEndInput /\ r_in (rd s2) = [] /\ r_inlen (rd s2) = 0)).
-
 Definition nonfatal (e : ierr) : Prop := e <> EPanic /\ e <> EFuel /\ isError e = false.
 
 Lemma decode_ok : forall data delivered f,
-  decomp_body -> decomperss_flush_statement -> decomp_phase_statement ->
+  decomp_body -> decomperss_flush_statement ->
   Forall (fun x => x < 256) data ->
   att_inv data delivered f -> readPos f = writePos f -> writePos f <= outLen ->
   let '(f3, e) := step_decode f in
   rBuf f3 = rBuf f /\ peekSize f3 = peekSize f /\ eof f3 = eof f /\ derr f3 = derr f /\
-  writePos f3 <= outLen + 261 /\ phase (state f3) <= 4 /\ inputNil (state f3) = false /\
+  writePos f3 <= outLen + 261 /\ inputNil (state f3) = false /\
   exists c',
     reach data c' /\ win_rel (hist f3) (writePos f3) (cfg_st c') /\
     delivered ++ pending_out f3 = frev (rout (cfg_st c')) /\ readPos f3 <= writePos f3 /\
@@ -352,20 +333,18 @@ Lemma decode_ok : forall data delivered f,
        (phase (state f3) = phaseDecodingHeader ->
           e = EEndInput /\ r_in (rd (state f3)) = [] /\ r_inlen (rd (state f3)) = 0)).
 Proof.
-  intros data delivered f Hdec Hflush Hphase Hdata Hinv Hrw Hw.
+  intros data delivered f Hdec Hflush Hdata Hinv Hrw Hw.
   pose proof (pending_out_nil f Hrw) as Hp.
   destruct Hinv as (Hbuf & HD & Hrp & Hwp & Hph & Hnil & c & u & Hreach & Hsim & Hwin & Hdel & Hu & Hbl & Hq).
   unfold step_decode. rewrite Hflush.
   pose proof (Hdec data big_fuel (state f) (hist f) (writePos f) c u Hdata Hreach Hsim Hwin Hw) as HX.
-  pose proof (Hphase big_fuel (state f) (hist f) (writePos f) (st_sim_phase4 _ _ _ Hsim)) as HP.
   destruct (decomp_loop big_fuel (state f) (hist f) (writePos f)) as [[[s1 h1] i1] e].
-  destruct HP as [_ HP].
   destruct (flush_ov s1 h1 i1) as [[s2 h2] i2].
   destruct HX as (c' & R1 & R2 & R3 & R4 & (v & R5 & R6) & R7 & R8).
   cbn [state writePos readPos hist rBuf derr peekSize eof haveBits set_state].
   unfold rOffset.
   split; [reflexivity|]. split; [reflexivity|]. split; [reflexivity|]. split; [reflexivity|].
-  split; [exact R4|]. split; [change (phase s2 <= 4); exact HP|].
+  split; [exact R4|].
   split; [change (inputNil s2 = false); congruence|].
   exists c'. split; [exact R1|]. split; [exact R2|].
   split.
@@ -475,16 +454,6 @@ Proof.
 Qed.
 
 (* ---------------------------------------------------------------- the end of step *)
-Definition step_post (data delivered : list N) (f' : decompressor) (r : option rres) : Prop :=
-  (exists c, reach data c /\
-             delivered ++ pending_out f' = frev (rout (cfg_st c)) /\
-             readPos f' <= writePos f' /\
-             (r = Some REOF -> phase (state f') = phaseFinish ->
-                exists st S0, c = CDone st S0 /\
-                  consumed (rBuf f') = (bp S0 + 7) / 8)) /\
-  derr f' = None /\
-  (r = None -> dec_inv data delivered f').
-
 Lemma phase4_not_finish : forall s, phase s <= 4 -> phase s <> phaseFinish.
 Proof. intros s H E. rewrite E in H. unfold phaseFinish in H. lia. Qed.
 
@@ -512,7 +481,7 @@ Qed.
 
 Definition step_tail2 (f : decompressor) (e : ierr) : decompressor * option rres :=
     if isError e || (ierr_eqb e EEndInput && eof f) then
-      match step_discard f with
+      match step_discard_at (held_nonneg f) f with
       | None => (f, Some RStuck)
       | Some (Some be, f) => (f, Some (rres_of_berror be))
       | Some (None, f) =>
@@ -535,15 +504,24 @@ Definition step_tail2 (f : decompressor) (e : ierr) : decompressor * option rres
 Lemma step_tail_other : forall f e, e <> EPanic -> e <> EFuel -> step_tail f e = step_tail2 f e.
 Proof. intros f e H1 H2. destruct e; try reflexivity; contradiction. Qed.
 
-Lemma step_discard_frame : forall f o f', step_discard f = Some (o, f') ->
-  hist f' = hist f /\ writePos f' = writePos f /\ readPos f' = readPos f /\ derr f' = derr f /\
-  phase (state f') = phase (state f).
+Lemma step_discard_at_ok : bDiscard_spec_statement -> forall f h,
+  buf_ok (rBuf f) -> blen (rBuf f) = peekSize f -> (0 <= h)%Z ->
+  exists f4, step_discard_at h f = Some (None, f4) /\
+    hist f4 = hist f /\ writePos f4 = writePos f /\ readPos f4 = readPos f /\ derr f4 = derr f.
 Proof.
-  intros f o f' H. unfold step_discard in H.
-  destruct (0 <? _)%Z.
-  - destruct (bDiscard _ _) as [[[be|] rb]|]; [| |discriminate];
-      injection H as <- <-; repeat split.
-  - injection H as <- <-. repeat split.
+  intros HDs f h Hbuf Hbl Hh. unfold step_discard_at.
+  set (ds := (Z.of_N (peekSize f) - Z.of_N (r_inlen (rd (state f))) - h)%Z).
+  destruct (0 <? ds)%Z eqn:E.
+  - destruct (HDs (rBuf f) (Z.to_N ds) Hbuf ltac:(unfold ds; lia))
+      as (b' & D1 & _).
+    rewrite D1. eexists. split; [reflexivity|]. repeat split.
+  - eexists. split; [reflexivity|]. repeat split.
+Qed.
+
+Lemma held_nonneg_ge0 : forall f, (0 <= held_nonneg f)%Z.
+Proof.
+  intros f. unfold held_nonneg. destruct (0 <? r_len (rd (state f)))%Z eqn:E; [|lia].
+  apply quot8_nonneg. lia.
 Qed.
 
 Lemma tail_ok : forall data delivered f0 f3 e,
@@ -552,7 +530,7 @@ Lemma tail_ok : forall data delivered f0 f3 e,
   (exists D, data = D ++ bstream (rBuf f0) /\ consumed (rBuf f0) = N.of_nat (length D)) ->
   blen (rBuf f0) = peekSize f0 ->
   rBuf f3 = rBuf f0 -> peekSize f3 = peekSize f0 -> derr f3 = None ->
-  writePos f3 <= outLen + 261 -> phase (state f3) <= 4 -> inputNil (state f3) = false ->
+  writePos f3 <= outLen + 261 -> inputNil (state f3) = false ->
   (exists c',
     reach data c' /\ win_rel (hist f3) (writePos f3) (cfg_st c') /\
     delivered ++ pending_out f3 = frev (rout (cfg_st c')) /\ readPos f3 <= writePos f3 /\
@@ -565,16 +543,17 @@ Lemma tail_ok : forall data delivered f0 f3 e,
           e = EEndInput /\ r_in (rd (state f3)) = [] /\ r_inlen (rd (state f3)) = 0))) ->
   let '(f', r) := step_tail f3 e in step_post data delivered f' r.
 Proof.
-  intros data delivered f0 f3 e HDs Hri Hbuf HD Hbl E1 E2 Hderr Hwp Hph4 Hnil
+  intros data delivered f0 f3 e HDs Hri Hbuf HD Hbl E1 E2 Hderr Hwp Hnil
          (c' & R1 & R2 & R3 & R4 & R5).
-  assert (Herr : forall f' r, r <> None -> hist f' = hist f3 -> writePos f' = writePos f3 ->
-            readPos f' = readPos f3 -> derr f' = None -> phase (state f') <= 4 ->
+  (* an error outcome: only the output claim; never io.EOF *)
+  assert (Herr : forall f' r, r <> None -> r <> Some REOF -> hist f' = hist f3 ->
+            writePos f' = writePos f3 -> readPos f' = readPos f3 -> derr f' = None ->
             step_post data delivered f' r).
-  { intros f' r Hr H1 H2 H3 H4 H5. split; [|split; [exact H4|intros; contradiction]].
+  { intros f' r Hr Hr2 H1 H2 H3 H4. split; [|split; [exact H4|intros; contradiction]].
     exists c'. split; [exact R1|]. split.
     { unfold pending_out in *. rewrite H1, H2, H3. exact R3. }
     split; [rewrite H2, H3; exact R4|].
-    intros _ Hfin. exfalso. exact (phase4_not_finish _ H5 Hfin). }
+    intros He. contradiction. }
   assert (Hsd : forall f, rBuf f = rBuf f0 -> peekSize f = peekSize f0 -> (0 <= r_len (rd (state f)))%Z ->
             qbytes (state f) <= peekSize f0 ->
             exists rb,
@@ -589,26 +568,26 @@ Proof.
     exists rb. rewrite F1, F2 in *. split; [exact G1|]. split; [exact G2|]. split; [exact G3|exact G4]. }
   destruct (ierr_eqb e EPanic) eqn:EP.
   { assert (e = EPanic) by (destruct e; try discriminate; reflexivity). subst e. cbn [step_tail].
-    apply Herr; [discriminate|reflexivity|reflexivity|reflexivity|exact Hderr|exact Hph4]. }
+    apply Herr; [discriminate|discriminate|reflexivity|reflexivity|reflexivity|exact Hderr]. }
   destruct (ierr_eqb e EFuel) eqn:EF.
   { assert (e = EFuel) by (destruct e; try discriminate; reflexivity). subst e. cbn [step_tail].
-    apply Herr; [discriminate|reflexivity|reflexivity|reflexivity|exact Hderr|exact Hph4]. }
+    apply Herr; [discriminate|discriminate|reflexivity|reflexivity|reflexivity|exact Hderr]. }
   assert (NP : e <> EPanic) by (intros ->; discriminate).
   assert (NF : e <> EFuel) by (intros ->; discriminate).
   rewrite (step_tail_other f3 e NP NF). unfold step_tail2.
   destruct (isError e || (ierr_eqb e EEndInput && eof f3)) eqn:Eb.
-  - (* reported as an error *)
-    destruct (step_discard f3) as [[[be|] f4]|] eqn:Esd.
-    + destruct (step_discard_frame _ _ _ Esd) as (F1 & F2 & F3 & F4 & F5).
-      apply Herr; [discriminate|exact F1|exact F2|exact F3|congruence|rewrite F5; exact Hph4].
-    + destruct (step_discard_frame _ _ _ Esd) as (F1 & F2 & F3 & F4 & F5).
-      destruct (ierr_eqb e EEndInput);
-        (apply Herr; [discriminate|exact F1|exact F2|exact F3|congruence|rewrite F5; exact Hph4]).
-    + apply Herr; [discriminate|reflexivity|reflexivity|reflexivity|exact Hderr|exact Hph4].
+  - (* reported as an error: since fix b29ee69 the Discard cannot fail *)
+    destruct (step_discard_at_ok HDs f3 (held_nonneg f3) ltac:(rewrite E1; exact Hbuf)
+                ltac:(rewrite E1, E2; exact Hbl) (held_nonneg_ge0 f3))
+      as (f4 & G1 & G2 & G3 & G4 & G5).
+    rewrite G1.
+    destruct (ierr_eqb e EEndInput);
+      (apply Herr; [discriminate|discriminate|exact G2|exact G3|exact G4|congruence]).
   - (* not an error *)
     apply orb_false_iff in Eb. destruct Eb as [Eie Eeof].
     destruct (R5 (conj NP (conj NF Eie))) as (S1 & S2 & S3 & S4 & S5).
     pose proof (st_sim_rlen _ _ _ S1) as H0.
+    pose proof (st_sim_phase4 _ _ _ S1) as Hph4.
     destruct (phase (state f3) =? phaseStreamEnd) eqn:Ese.
     + (* end of stream: EOF *)
       apply N.eqb_eq in Ese.
@@ -621,7 +600,7 @@ Proof.
       rewrite G1.
       split; [|split; [exact Hderr|discriminate]].
       exists c'. split; [exact R1|]. split; [exact R3|]. split; [exact R4|].
-      intros _ _. exists st, S0. split; [exact Hc|].
+      intros _. exists st, S0. split; [exact Hc|].
       cbn [rBuf]. rewrite G4.
       destruct HD as (D & HD1 & HD2). rewrite HD2.
       change (qbytes (state f4)) with (qbytes (state f3)). unfold qbytes.
@@ -698,11 +677,11 @@ Proof.
   split; [exact U1|]. split; [exact U2|exact U3].
 Qed.
 
-Theorem step_refine2 : step_refine2_statement.
+Theorem step_refine_final : step_refine_final_statement.
 Proof.
-  intros HDR Hflush Hphase HPk HPb HDs Hri Hrh Hrn Hhuff Hlit data delivered f Hdata Hinv Hrw Hderr.
-  assert (Hdec : decomp_body) by (exact (HDR Hrh Hrn Hhuff Hlit Hri)).
-  change (step_post data delivered (fst (step f)) (snd (step f))).
+  intros Hdec Hflush HPk HPb HDs Hri data delivered f Hdata Hinv Hrw Hderr.
+  cut (step_post data delivered (fst (step f)) (snd (step f))).
+  { destruct (step f) as [f' r]. intros H; exact H. }
   rewrite step_eq.
   destruct (phase (state f) =? phaseFinish) eqn:Eph.
   { apply N.eqb_eq in Eph. destruct Hinv as (_ & _ & _ & _ & Hph & _). contradiction. }
@@ -720,13 +699,14 @@ Proof.
     intros He. exfalso. apply A3. exact He.
   - destruct Hatt as (A1 & A2 & _ & _ & A5). specialize (A5 eq_refl).
     destruct (slide_ok data delivered f1 A5 A2) as (B1 & B2 & B3 & B4).
-    pose proof (decode_ok data delivered (step_slide f1) Hdec Hflush Hphase Hdata B1 B2 B3) as HX.
+    pose proof (decode_ok data delivered (step_slide f1) Hdec Hflush Hdata B1 B2 B3) as HX.
     destruct (step_decode (step_slide f1)) as [f3 e].
-    destruct HX as (X1 & X2 & X3 & X4 & X5 & X6 & X7 & X8).
+    destruct HX as (X1 & X2 & X3 & X4 & X5 & X7 & X8).
     destruct B1 as (Hbuf & HD & _ & _ & _ & _ & c0 & u0 & _ & _ & _ & _ & _ & Hbl & _).
     pose proof (tail_ok data delivered (step_slide f1) f3 e HDs Hri Hbuf HD Hbl X1 X2
-                  ltac:(rewrite X4, B4; exact A1) X5 X6 X7 X8) as HT.
-    destruct (step_tail f3 e) as [f' r]. exact HT.
+                  ltac:(rewrite X4, B4; exact A1) X5 X7 X8) as HT.
+    cbv iota beta.
+    destruct (step_tail f3 e) as [f' r]. cbn [fst snd]. exact HT.
 Qed.
 
-Print Assumptions step_refine2.
+Print Assumptions step_refine_final.
